@@ -4,7 +4,7 @@ from __future__ import annotations
 import ast
 
 from ..cfg import cfg_of, T as TRUE, F as FALSE
-from ..dataflow import derives, rd_of
+from ..dataflow import derives, rd_of, resolve_local, resolve_name, return_values, expand_locals
 from ..indexspace import IndexKinds
 from ..loader import dotted, walk_no_nested
 from . import common_order as CO
@@ -131,8 +131,10 @@ def clique_taint(ctx, rule="C19.clique"):
     added_k = None
     if adds and isinstance(adds[0].args[0], ast.Subscript) and isinstance(adds[0].args[0].slice, ast.Constant):
         added_k = adds[0].args[0].slice.value
-    comps = [n for n in walk_no_nested(sw.node) if isinstance(n, ast.ListComp) and dotted(n.generators[0].iter) == "_c_1"]
-    ctx.require(added_k is not None and len(comps) >= 2, "swap: candidate ranking comprehensions over _c_1 not found")
+    cands = {n.targets[0].id for n in walk_no_nested(sw.node) if isinstance(n, ast.Assign) and isinstance(n.targets[0], ast.Name)
+             and any(isinstance(c, ast.Call) and dotted(c.func) == "c_1" for c in ast.walk(n.value))}
+    comps = [n for n in walk_no_nested(sw.node) if isinstance(n, ast.ListComp) and dotted(n.generators[0].iter) in cands]
+    ctx.require(added_k is not None and len(comps) >= 2, "swap: candidate ranking comprehensions over the c_1 pairs not found")
     for i, comp in enumerate(comps):
         tgt = comp.generators[0].target
         used = None
@@ -157,13 +159,18 @@ def clique_taint(ctx, rule="C19.clique"):
     ok = any(isinstance(n, ast.Compare) and isinstance(n.ops[0], ast.Eq) and "len(clique) - 1" in ast.unparse(n) for n in walk_no_nested(c1.node))
     ctx.ob(rule, c1.site, ok, "" if ok else "c_1 does not select nodes adjacent to all but exactly one member", role="c1-all-but-one", line=c1.node.lineno)
     ic = ctx.tree.func(CLQ, "is_clique")
-    rets = [n for n in walk_no_nested(ic.node) if isinstance(n, ast.Return) and n.value is not None]
-    ok = bool(rets) and isinstance(rets[0].value, ast.Compare) and isinstance(rets[0].value.ops[0], ast.Eq)
-    if ok:
-        d = derives(ic.node, rets[0].value)
-        ok = d.has_call("graph.order") or d.has_call("number_of_nodes") or d.has_call("len")
-        txt = ast.unparse(rets[0].value).replace(" ", "")
-        ok = ok and ("*(nodes-1)/2" in txt or "*(nodes-1)//2" in txt)
+    import re as _re
+    rets = return_values(ic.node)
+    ok = bool(rets)
+    for r, v in rets:
+        v = expand_locals(ic.node, v)
+        good = isinstance(v, ast.Compare) and len(v.ops) == 1 and isinstance(v.ops[0], ast.Eq)
+        if good:
+            sides = [ast.unparse(v.left).replace(" ", ""), ast.unparse(v.comparators[0]).replace(" ", "")]
+            edge = [s_ for s_ in sides if "edges" in s_ or "size()" in s_]
+            full = [s_ for s_ in sides if _re.fullmatch(r"(.+)\*\(\1-1\)//?2", s_) or _re.fullmatch(r"\((.+)-1\)\*\1//?2", s_)]
+            good = bool(edge) and bool(full)
+        ok = ok and good
     ctx.ob(rule, ic.site, ok, "" if ok else "is_clique is not `number of edges == n (n - 1) / 2`", role="is-clique", line=ic.node.lineno)
     ctx.floor(rule, 13)
 
